@@ -112,7 +112,22 @@ struct Model {
 // key pools
 static std::vector<std::string> make_pool(vf::Rng &r, unsigned kind) {
     std::vector<std::string> p;
-    switch (kind % 5) {
+    switch (kind % 6) {
+        case 5: { // long keys that differ in one unit at or next to a 16/32/64-unit block edge, or only in length
+            static const unsigned at[] = {0, 14, 15, 16, 17, 30, 31, 32, 33, 47, 48, 62, 63, 64, 65, 70};
+            std::string           base(71, 'k');
+            for (unsigned i = 0; i < 10; ++i) {
+                std::string k2 = base;
+                k2[at[r.below(16)]] = char('a' + r.below(3));
+                if (r.chance(1, 3)) k2.resize(at[r.below(16)] + 1);
+                p.push_back(k2);
+            }
+            p.push_back(base);
+            p.push_back(base.substr(0, 64));
+            p.push_back(base.substr(0, 32));
+            p.push_back(base.substr(0, 16));
+            break;
+        }
         case 0: // tiny alphabet: duplicates everywhere
             p = {"a", "b", "c", "d", "ab", "abc", "b1", "", "aa"};
             break;
